@@ -452,6 +452,8 @@ var ghostSorts = map[string]string{
 	"#inlen":   "Int",
 	"#ineof":   "Bool",
 	"#rdzero":  "Int",
+	"#rdcount": "Int", // number of Read calls so far
+	"#rdn":     "Int", // bytes delivered by the most recent Read
 	"#depth":   "Int",
 }
 
